@@ -1,6 +1,7 @@
 package main
 
 import (
+	"sort"
 	"fmt"
 	"strings"
 )
@@ -443,18 +444,42 @@ func (g *HistGen) maybeCond(t *TableSpec, op *Op) {
 	op.setExprs(ctx.Names, ctx.Values)
 	// unused / malformed placeholders (often together with a second fault: a table that does not exist)
 	if g.r.Chance(g.p.BadPct/2) || (t.Name == "nosuchtable" && g.r.Chance(60)) {
-		switch g.r.Intn(4) {
+		switch g.r.Intn(6) {
 		case 0:
 			ctx.Names["#unused"] = "v"
 		case 1:
 			ctx.Values[":unused"] = S("1")
 		case 2:
 			ctx.Names["#bad-name"] = "v"
-		default:
+		case 3:
 			ctx.Values[":bad-value"] = S("1")
+		default:
+			// a placeholder the expressions use does not come with the request
+			if g.dropPlaceholder(ctx) {
+				op.CondTree = nil
+			}
 		}
 		op.setExprs(ctx.Names, ctx.Values)
 	}
+}
+
+// dropPlaceholder removes one of the supplied names or values: the expressions still use it
+func (g *HistGen) dropPlaceholder(ctx *ExprCtx) bool {
+	keys := []string{}
+	for k := range ctx.Names {
+		keys = append(keys, k)
+	}
+	for k := range ctx.Values {
+		keys = append(keys, k)
+	}
+	if len(keys) == 0 {
+		return false
+	}
+	sort.Strings(keys)
+	k := pick(g.r, keys)
+	delete(ctx.Names, k)
+	delete(ctx.Values, k)
+	return true
 }
 
 func (g *HistGen) genPut() {
@@ -834,6 +859,9 @@ func (g *HistGen) searchOpX(kind string, forceScan bool) *Op {
 			ctx.Values[":bad-value"] = S("1")
 		}
 	}
+	if g.r.Chance(g.p.BadPct/3) && !g.native && g.dropPlaceholder(ctx) {
+		op.KeyTree, op.FilterTree = nil, nil
+	}
 	op.setExprs(ctx.Names, ctx.Values)
 	if g.r.Chance(50) || kind == "pages" {
 		op.Limit = 1 + g.r.Intn(4)
@@ -1051,7 +1079,33 @@ func (g *HistGen) genMgmt() {
 			g.createTable(pick(g.r, live).Name)
 		}
 	case 2, 3: // add an index to a table with data
-		if len(live) > 0 && g.r.Chance(15) {
+		if len(live) > 0 && g.r.Chance(18) {
+			// an UpdateTable that fails leaves nothing behind: neither the index changes that came before the failing one
+			// nor the attribute definitions it brought (a later index on such an attribute, sent without definitions, is refused)
+			t := pick(g.r, live)
+			nosuch := HexS("nosuchindex")
+			attr := fmt.Sprintf("q%d", len(g.ops))
+			fresh := IndexDef{Name: HexS(fmt.Sprintf("tmp%d", len(g.ops))), Key: *keyDefOf([2]string{attr, "S"}, nil), TP: true}
+			switch g.r.Intn(3) {
+			case 0: // create, then a failing delete
+				g.ops = append(g.ops, &Op{Op: "updateTable", Table: HexS(t.Name), Changes: []IndexChange{{Create: &fresh}, {Delete: &nosuch}}})
+			case 1: // delete an index the table has, then a failing create
+				if len(t.GSI) > 0 {
+					name := HexS(pick(g.r, t.GSI).Name)
+					bad := IndexDef{Name: HexS("undef"), Key: *keyDefOf([2]string{"undefinedattr", "S"}, nil), TP: true, NoDefs: true}
+					g.ops = append(g.ops, &Op{Op: "updateTable", Table: HexS(t.Name), Changes: []IndexChange{{Delete: &name}, {Create: &bad}}})
+				} else {
+					g.ops = append(g.ops, &Op{Op: "updateTable", Table: HexS(t.Name), Changes: []IndexChange{{Create: &fresh}, {Delete: &nosuch}}})
+				}
+			default: // a single failing change that brings a definition
+				g.ops = append(g.ops, &Op{Op: "updateTable", Table: HexS(t.Name), Changes: []IndexChange{{Delete: &nosuch}, {Create: &fresh}}})
+			}
+			// the definition of attr came with a request that failed: an index on it without definitions is refused
+			again := fresh
+			again.NoDefs = true
+			g.ops = append(g.ops, &Op{Op: "updateTable", Table: HexS(t.Name), Changes: []IndexChange{{Create: &again}}})
+			g.ops = append(g.ops, &Op{Op: "describeTable", Table: HexS(t.Name)})
+		} else if len(live) > 0 && g.r.Chance(15) {
 			// an index over a key attribute that is in use, declared with another type than it has: the
 			// request must be rejected and the attribute keep its type (or the stored items become unreachable)
 			t := pick(g.r, live)
